@@ -34,7 +34,7 @@ See `parse_template()` for details.
 
 import re
 from functools import lru_cache
-from typing import List, Optional, Tuple
+from typing import Any, List, Optional, Tuple
 
 from django.template.base import DebugLexer, Token, TokenType
 from django.template.exceptions import TemplateSyntaxError
@@ -67,6 +67,8 @@ def parse_template(text: str) -> List[Token]:
     index_start = 0
     index_end = len(text)
     lineno_offset = 0
+    # Name of the `{% endverbatim %}` tag we are waiting for, if the previous (re-parsed) token opened a verbatim block
+    verbatim: Any = False
 
     while index_start < index_end:
         broken_token: Optional[Token] = None
@@ -74,6 +76,7 @@ def parse_template(text: str) -> List[Token]:
         # We use DebugLexer because we need to get the position of the tokens.
         # DebugLexer and Lexer have very similar speeds, Debug is about 33% slower.
         lexer = DebugLexer(text[index_start:index_end])
+        lexer.verbatim = verbatim
         tokens: List[Token] = lexer.tokenize()
 
         for token in tokens:
@@ -92,6 +95,10 @@ def parse_template(text: str) -> List[Token]:
             fixed_token = _detailed_tag_parser(text[broken_token_start:], broken_token.lineno, broken_token_start)
 
             resolved_tokens.append(fixed_token)
+            # Same as `Lexer.create_token()` - a (quoted) `{% verbatim %}` tag turns the verbatim mode on
+            verbatim = False
+            if fixed_token.contents[:9] in ("verbatim", "verbatim "):
+                verbatim = "end%s" % fixed_token.contents
             index_start = fixed_token.position[1]
             lineno_offset = (
                 fixed_token.lineno - 1  # -1 because lines are 1-indexed
